@@ -46,6 +46,109 @@ def judge(rec, opts):
     return out
 
 
+def _record_traces(args):
+    """Worker: render the records of one ndjson byte range with the scope recorder on; return trace lines."""
+    import json
+
+    from liquid2 import DictLoader
+
+    from . import replay, scopetrace
+    path, start, end, base = args
+    out = []
+    with open(path, "rb") as fd:
+        fd.seek(start)
+        n = 0
+        while fd.tell() < end:
+            line = fd.readline()
+            if not line.strip():
+                continue
+            rec = json.loads(line)
+            n += 1
+            templates = {replay.conc(k): replay.conc(v) for k, v in rec["templates"]}
+            env = replay.make_env(rec["cfg"], loader=DictLoader(dict(templates)))
+            try:
+                t = env.from_string(templates[replay.conc(rec["main"])], name="main")
+            except Exception:  # noqa: BLE001
+                continue
+            data = replay.layer(rec["data"][0])
+            for mode in ("sync", "async"):
+                ev, raised = scopetrace.record(t, dict(data), mode)
+                out.append(json.dumps({"id": f"{base}-{start}-{n}-{mode}", "events": ev, "raised": raised, "src": templates["main"][:300]}, ensure_ascii=True))
+    return out
+
+
+def scope_traces(chk: Check, tier: str) -> None:
+    """C->S: the push / pop / enter / exit events of every render of the generated programs are
+    replayed by TLC as the machine of Trace_Scope.tla (NoUnderflow, Balanced, Nested, Clean)."""
+    import json
+    import os
+    import shutil
+    from concurrent.futures import ProcessPoolExecutor
+
+    from . import tlc
+    from .common import SCRATCH, workers
+    plans = [("MC_Scopes", "scopes", {}, 2, 3), ("MC_Lambda", "lambda", {}, 4, 4), ("MC_Flow", "flow", {}, 1, 2),
+             ("MC_Loops", "loops-nest", {"Variant": '"nest"'}, 2, 2), ("MC_Undef", "undef", {"Variant": '"single"'}, 1, 1),
+             ("MC_Confused", "confused", {}, 1, 1)]
+    out = SCRATCH / f"C07-scope-{os.getpid()}"
+    shutil.rmtree(out, ignore_errors=True)
+    out.mkdir(parents=True)
+    try:
+        for module, name, consts, q, t in plans:
+            r = gen.run_focus(chk, module, name + "-trace", max_top=t if tier == "thorough" else q, extra_constants=consts,
+                              export="ExportInputs", invariants=())
+            if r is None:
+                continue
+            try:
+                path = r.workdir / "out.ndjson"
+                size = path.stat().st_size
+                n = workers() * 2
+                cuts = [0]
+                with path.open("rb") as fd:
+                    for i in range(1, n):
+                        fd.seek(size * i // n)
+                        fd.readline()
+                        cuts.append(min(fd.tell(), size))
+                cuts.append(size)
+                jobs = [(str(path), a, b, name) for a, b in zip(cuts, cuts[1:]) if b > a]
+                lines = []
+                with ProcessPoolExecutor(workers()) as ex:
+                    for part in ex.map(_record_traces, jobs):
+                        lines.extend(part)
+            finally:
+                r.cleanup()
+            shards = []
+            for k in range(0, len(lines), 4000):
+                p = out / f"{name}-{k}.ndjson"
+                p.write_text("\n".join(lines[k:k + 4000]) + "\n")
+                shards.append(p)
+            for p in shards:
+                tr = tlc.run("Trace_Scope", tlc.cfg_text(invariants=["Verdict"]), tag=f"tracescope-{p.stem}", workers=8, heap="4g",
+                             env={"TRACE_FILE": str(p)}, timeout=3000)
+                try:
+                    if tr.error or tr.invariant_violated:
+                        chk.machinery_error = tr.error or "Trace_Scope evaluation failed"
+                        continue
+                    chk.tlc(tr, f"scope-trace validation {name} ({p.name})")
+                    verdicts = {v["id"]: v for v in tr.out_lines()}
+                    srcs = {}
+                    for l in p.read_text().splitlines():
+                        d = json.loads(l)
+                        srcs[d["id"]] = d
+                    chk.validated(len(srcs))
+                    chk.add_distinct(len(srcs))
+                    for tid, d in srcs.items():
+                        v = verdicts.get(tid)
+                        if v is None:
+                            chk.machinery_error = f"no verdict for scope trace {tid}"
+                        elif not v["ok"]:
+                            chk.violation(f"scope-trace:{v['clause']}:{name}", {"kind": "scope-trace", "clause": v["clause"], "trace": d})
+                finally:
+                    tr.cleanup()
+    finally:
+        shutil.rmtree(out, ignore_errors=True)
+
+
 def check(tier: str) -> int:
     chk = Check("C07", tier)
     chk.assumptions += ["non-interference is checked on the reference (TLC) and carried to the code by exact output equality",
@@ -64,9 +167,25 @@ def check(tier: str) -> int:
             gen.replay_file(chk, r.workdir / "out.ndjson", "harness.c07", "judge")
         finally:
             r.cleanup()
+    scope_traces(chk, tier)
     return chk.finish()
 
 
 def replay_file(path: str) -> int:
+    import json
+    d = json.load(open(path))
+    if d["record"].get("kind") == "scope-trace":
+        tr = d["record"]["trace"]
+        print(tr["src"])
+        depth = 0
+        for ev in tr["events"]:
+            if ev["e"] == "exit":
+                depth -= 1
+            print("  " * depth + ev["e"], ev["n"] or f"map{ev['m']}")
+            if ev["e"] == "enter":
+                depth += 1
+        print("clause:", d["record"]["clause"])
+        print(f"VIOLATION property=C07 replay={path}")
+        return 1
     from . import c01
     return c01.replay_file(path)
